@@ -10,7 +10,9 @@ import (
 	"sync/atomic"
 	"time"
 
+	"github.com/gogo/protobuf/proto"
 	"github.com/pingcap/kvproto/pkg/eraftpb"
+	"github.com/pingcap/kvproto/pkg/metapb"
 	"github.com/pingcap/kvproto/pkg/pdpb"
 	"github.com/tikv/pd/pkg/mock/mockcluster"
 	"github.com/tikv/pd/server/core"
@@ -28,13 +30,15 @@ var errInconclusive = errors.New("inconclusive")
 
 type delivered struct {
 	store uint64
-	m     *pdpb.RegionHeartbeatResponse
+	m     *pdpb.RegionHeartbeatResponse // what was on the wire: a copy taken inside Send
+	obj   *pdpb.RegionHeartbeatResponse // the object that was handed to Send
 }
 
 // recorder keeps what the stream goroutine handed to Send, in order.
 type recorder struct {
 	mu   sync.Mutex
 	msgs []delivered
+	gate atomic.Value // chan struct{}: while set, the stream loop is held inside the Send of an error message
 }
 
 type recStream struct {
@@ -43,8 +47,17 @@ type recStream struct {
 }
 
 func (s *recStream) Send(m *pdpb.RegionHeartbeatResponse) error {
+	if m.GetHeader().GetError() != nil {
+		// the harness' own marker message (SendErr): a store stream that does not return from Send for a
+		// while (back-pressure); the single stream loop is stuck here and later commands queue up in msgCh
+		if g, _ := s.rec.gate.Load().(chan struct{}); g != nil {
+			<-g
+		}
+		return nil
+	}
+	c := proto.Clone(m).(*pdpb.RegionHeartbeatResponse)
 	s.rec.mu.Lock()
-	s.rec.msgs = append(s.rec.msgs, delivered{s.store, m})
+	s.rec.msgs = append(s.rec.msgs, delivered{s.store, c, m})
 	s.rec.mu.Unlock()
 	return nil
 }
@@ -177,7 +190,7 @@ type evCtx struct {
 	rs      *regState
 	removed *opRec
 	raced   *opRec // the operator whose finished step was checked concurrently in this event
-	judge   *judge
+	judges  []*judge
 	msgs    map[*regState][]inMsg
 }
 
@@ -370,6 +383,8 @@ func (w *world) event(op Op) error {
 		w.evExec(ev, rs, op.NoHB, op.Race)
 	case "hb":
 		w.heartbeat(ev, rs)
+	case "hbs":
+		w.evHeartbeats(ev)
 	case "lose":
 		if len(rs.inbox) > 0 {
 			w.class("event:commands-lost")
@@ -929,7 +944,7 @@ func (w *world) heartbeat(ev *evCtx, rs *regState, race ...int) {
 	rs.children = nil
 	ev.rs = rs
 	if x := w.runningRec(rs); x != nil && x.op.Status() == operator.STARTED {
-		ev.judge = w.preJudge(x, rs)
+		ev.judges = append(ev.judges, w.preJudge(x, rs))
 	}
 	for _, o := range w.ops {
 		if o.rs == rs {
@@ -944,6 +959,26 @@ func (w *world) heartbeat(ev *evCtx, rs *regState, race ...int) {
 		return
 	}
 	w.oc.Dispatch(ri, schedule.DispatchFromHeartBeat)
+}
+
+// evHeartbeats: every region heartbeats while a store stream is stuck in Send (a
+// slow / back-pressured store): the stream loop does not take anything out of
+// msgCh, so the commands of all these dispatches are queued together before the
+// first of them reaches a store. What the stores then receive is judged as usual
+// (header = the region's view, command = the operator's current step, one per dispatch).
+func (w *world) evHeartbeats(ev *evCtx) {
+	g := make(chan struct{})
+	w.rec.gate.Store(g)
+	st := w.c.Cluster.Stores[0].ID
+	w.hb.SendErr(pdpb.ErrorType_UNKNOWN, "c09 stalled stream", &metapb.Peer{StoreId: st})
+	for _, rs := range append([]*regState(nil), w.regs...) {
+		if rs.view != nil && !rs.sim.Merged {
+			w.heartbeat(ev, rs)
+		}
+	}
+	w.rec.gate.Store((chan struct{})(nil))
+	close(g)
+	w.class("event:heartbeats-behind-stalled-stream")
 }
 
 // rendezvous wraps a finished step without changing its behaviour: the first
@@ -1127,10 +1162,15 @@ func (w *world) preJudge(x *opRec, rs *regState) *judge {
 }
 
 func (w *world) postJudge(ev *evCtx) error {
-	j := ev.judge
-	if j == nil {
-		return nil
+	for _, j := range ev.judges {
+		if err := w.postJudge1(ev, j); err != nil {
+			return err
+		}
 	}
+	return nil
+}
+
+func (w *world) postJudge1(ev *evCtx, j *judge) error {
 	x := j.x
 	st := x.op.Status()
 	running := w.runningRec(x.rs) == x
@@ -1174,6 +1214,11 @@ func (w *world) postJudge(ev *evCtx) error {
 			}
 			return nil
 		}
+		if st == operator.REPLACED && !running {
+			// a later dispatch of the same event promoted a waiting operator of higher priority (the sweep has
+			// checked that such an operator was started on the region in this event)
+			return nil
+		}
 		if st != operator.STARTED || !running {
 			return w.errf("%s: the region (%s) changed only through the operator's own executed commands, the heartbeat must not end it", x, x.rs.sim)
 		}
@@ -1201,11 +1246,19 @@ func (w *world) collect(ev *evCtx) error {
 		return errInconclusive
 	}
 	ev.msgs = map[*regState][]inMsg{}
+	seenObj := map[*pdpb.RegionHeartbeatResponse]bool{}
 	for _, d := range w.rec.drain() {
 		m := d.m
 		if m.GetRegionId() == 0 {
 			continue // keep-alive
 		}
+		// one event = commands that were created without anything in between that waits for the stream loop:
+		// an object that shows up twice among them was queued twice (SendMsg addresses the object in place,
+		// so the earlier addressee lost its command)
+		if seenObj[d.obj] {
+			return w.errf("the same command object was queued twice in one event (now delivered to store %d as %v): the command created first was re-addressed, a created command must be received exactly once", d.store, m)
+		}
+		seenObj[d.obj] = true
 		rs := w.byID[m.GetRegionId()]
 		if rs == nil || rs.view == nil {
 			return w.errf("store %d received a command for region %d which pd never heard of", d.store, m.GetRegionId())
@@ -1227,6 +1280,17 @@ func (w *world) collect(ev *evCtx) error {
 			// have ended the operator in between (check-then-act inside pd; not part of the statement)
 			o = ev.raced
 			w.class("race:command-for-operator-ended-by-concurrent-dispatch")
+		}
+		// an event may dispatch several regions (push, heartbeats behind a stalled stream): the operator that was
+		// running on this region when the event began may have sent this command and been replaced / ended by a
+		// later dispatch of the same event (promotion of a waiting operator). It is the sender when the command
+		// is the command of its current step and not of the current operator's.
+		for _, p := range w.ops {
+			if p.rs == rs && p.running && p != o && p.nextSeen(v) < len(p.steps) && matchStep(m, p.steps[p.nextSeen(v)]) &&
+				(o == nil || o.nextSeen(v) >= len(o.steps) || !matchStep(m, o.steps[o.nextSeen(v)])) {
+				o = p
+				w.class("command:of-operator-replaced-later-in-the-event")
+			}
 		}
 		if o == nil {
 			return w.errf("store %d received a command for region %d which has no running operator", d.store, v.ID)
@@ -1442,7 +1506,13 @@ func (w *world) cancelJustified(ev *evCtx, o *opRec) error {
 		w.class("operator:cancelled-region-gone")
 		return nil
 	}
-	if j := ev.judge; j != nil && j.x == o {
+	var j *judge
+	for _, k := range ev.judges {
+		if k.x == o {
+			j = k
+		}
+	}
+	if j != nil {
 		if o.unsound || j.excluded || j.foreign {
 			return nil
 		}
